@@ -292,3 +292,39 @@ func H_C17_shape(fs, w int) {
 	}
 	vReach("end")
 }
+
+// H_C17_hlists: the URI-header list wrapper counts every header (stored or
+// not), returns that count, keeps the stored prefix exact and reports More().
+func H_C17_hlists(t, w, hcap int) {
+	buf := vTpl(t, w)
+	var l URIHdrsLst
+	var hb [3]URIHdr
+	l.Init(hb[:hcap])
+	o, k, e := ParseAllURIHdrs(buf, 0, &l, POptTokURIHdrF|POptInputEndF)
+	vObs("o", o)
+	vObs("e", int(e))
+	if e != ErrHdrOk && e != ErrHdrEOH {
+		vReach("not-a-list")
+		return
+	}
+	var prm PTokParam
+	offs, cnt := 0, 0
+	for {
+		prm.Reset()
+		o2, e2 := ParseTokenParam(buf, offs, &prm, POptTokURIHdrF|POptInputEndF|POptParamAmpSepF)
+		if e2 != ErrHdrOk && e2 != ErrHdrEOH && e2 != ErrHdrMoreValues {
+			break
+		}
+		if cnt < hcap {
+			vAssert("stored-header-spans", l.Hdrs[cnt].Name == prm.Name && l.Hdrs[cnt].Val == prm.Val)
+		}
+		cnt++
+		if e2 != ErrHdrMoreValues {
+			break
+		}
+		offs = o2
+	}
+	vAssert("count-includes-dropped", l.N == cnt && k == cnt)
+	vAssert("more-indicator", l.More() == (cnt > hcap))
+	vReach("list-end")
+}
